@@ -323,6 +323,49 @@ fn check_state(node: &Node, cons: &Consensus, built: &Built, report: &mut Report
     Ok(r)
 }
 
+/// The currently published snapshot, judged on its own: the chain it announces (its tip field,
+/// walked back through parent hashes) is replayed from genesis and compared byte for byte with
+/// everything the snapshot's store view answers.
+pub fn judge_published_snapshot(shared: &ckb_shared::Shared, cons: &Consensus) -> Vec<(String, String)> {
+    use ckb_store::ChainStore;
+    let mut out = vec![];
+    let snap = shared.snapshot();
+    let tipn = snap.tip_number();
+    // the announced chain: from the tip FIELD backwards (not through the number index, which is
+    // part of what is judged)
+    let mut chain: Vec<BlockView> = vec![];
+    let mut cur = snap.tip_hash();
+    loop {
+        match snap.get_block(&cur) {
+            Some(b) => {
+                let parent = b.parent_hash();
+                let n = b.number();
+                chain.push(b);
+                if n == 0 {
+                    break;
+                }
+                cur = parent;
+            }
+            None => {
+                out.push(("main-chain-unreadable".into(), format!("the published snapshot (tip {tipn}) cannot read block {cur} of the chain it announces")));
+                return out;
+            }
+        }
+    }
+    chain.reverse();
+    match RefChain::replay(cons, &chain) {
+        Err(e) => out.push(("reference".into(), e)),
+        Ok(r) => {
+            let ds = dump(snap.as_ref());
+            out.extend(compare(snap.as_ref(), &ds, &r));
+            if snap.tip_hash().as_slice() != r.meta_tip.as_slice() || snap.total_difficulty() != &r.tip_total_difficulty {
+                out.push(("tip-fields".into(), "tip / total difficulty fields disagree with the snapshot's own chain".into()));
+            }
+        }
+    }
+    out
+}
+
 fn run_case(ctx: &Ctx, cons: &Consensus, built: &Built, case: &Case, twins: &mut HashMap<packed::Byte32, Dump>, idx: u64) -> Result<Report, String> {
     let mut report = Report::new();
     let dir = ctx.scratch.join("run");
@@ -346,26 +389,8 @@ fn run_case(ctx: &Ctx, cons: &Consensus, built: &Built, case: &Case, twins: &mut
             if point != "verify_block:after-commit" {
                 return;
             }
-            use ckb_store::ChainStore;
-            let snap = shared.snapshot();
-            let tipn = snap.tip_number();
-            let chain: Option<Vec<BlockView>> = (0..=tipn).map(|n| snap.get_block_hash(n).and_then(|h| snap.get_block(&h))).collect();
             count.fetch_add(1, std::sync::atomic::Ordering::SeqCst);
-            match chain {
-                None => sink.lock().unwrap().push(("main-chain-unreadable".into(), format!("the published snapshot (tip {tipn}) cannot read its own main chain while the next block is being committed"))),
-                Some(chain) => match RefChain::replay(&cons2, &chain) {
-                    Err(e) => sink.lock().unwrap().push(("reference".into(), e)),
-                    Ok(r) => {
-                        let ds = dump(snap.as_ref());
-                        for (sub, msg) in compare(snap.as_ref(), &ds, &r) {
-                            sink.lock().unwrap().push((sub, msg));
-                        }
-                        if snap.tip_hash().as_slice() != r.meta_tip.as_slice() || snap.total_difficulty() != &r.tip_total_difficulty {
-                            sink.lock().unwrap().push(("tip-fields".into(), "tip / total difficulty fields disagree with the snapshot's own chain".into()));
-                        }
-                    }
-                },
-            }
+            sink.lock().unwrap().extend(judge_published_snapshot(&shared, &cons2));
         })));
     }
     let mut delivered: Vec<String> = vec![];
@@ -494,6 +519,20 @@ pub fn run(ctx: &Ctx) -> Report {
             return report;
         }
     };
+    let sched_monitor = {
+        let cons = cons.clone();
+        move |node: &Node| judge_published_snapshot(&node.shared, &cons)
+    };
+    if let Some(path) = &ctx.replay {
+        let v: Value = load_replay_case(path);
+        if v["family"] == "S" {
+            drop(forge);
+            crate::props::c01::sched_family_with_monitor(ctx, &mut report, &sched_monitor, Some(&v));
+            report.outcomes.insert(0);
+            report.outcomes.insert(1);
+            return report;
+        }
+    }
     let cases: Vec<Case> = if let Some(path) = &ctx.replay {
         let v: Value = load_replay_case(path);
         report.outcomes.insert(0);
@@ -547,5 +586,10 @@ pub fn run(ctx: &Ctx) -> Report {
         }
     }
     report.count("forge_boots", forge.boots as u64);
+    drop(forge);
+    // family S: the published snapshot at every cut of every schedule of the chain service's threads
+    if ctx.replay.is_none() && report.machinery_errors.is_empty() && report.cap_hit.is_none() {
+        crate::props::c01::sched_family_with_monitor(ctx, &mut report, &sched_monitor, None);
+    }
     report
 }
